@@ -47,8 +47,6 @@ Definition w_vacomma :=
 Definition w_resub :=
   [def_fun ViaDefine [tIw "G"; tP "("; tI "x"; tP ","; tI "y"; tP ")"; tOw "#"; tI "y"; tIw "x"] "G" ["x"; "y"] false
            [tO "#"; tI "y"; tIw "x"]].
-Lemma refuted_operand_resubstituted : disagree w_resub [tI "G"; tP "("; tN "1"; tP ","; tI "x"; tP ")"].
-Proof. closed_disagree. Qed.
 
 (* #define F(x,y) x y   #define S(x) #x     S(F(1)) *)
 Definition w_operand :=
@@ -75,14 +73,14 @@ Proof. closed_agree. Qed.
 (* ------------------------------------------------------------------ *)
 (* (b) the original behaviours that were repaired                      *)
 (* ------------------------------------------------------------------ *)
-Definition run_M_with (lead cat_fix str_white : bool) (base : option string) (rescan va_fix va_whole : bool)
+Definition run_M_with (lead cat_fix str_white resub_fix : bool) (base : option string) (rescan va_fix va_whole : bool)
            (cs : list cmacro) (input : list tok) : data :=
   match build_table 0 (map (fun c => (c_via c, c_mtoks c)) cs) [] with
   | inr (i, e) => DList [DStr "DefErr"; of_nat i; DStr e]
-  | inl tb => enc_M (expand lead cat_fix str_white base rescan va_fix va_whole Gen.C03_tables.max_level tb fuel_M input)
+  | inl tb => enc_M (expand lead cat_fix str_white resub_fix base rescan va_fix va_whole Gen.C03_tables.max_level tb fuel_M input)
   end.
 Lemma run_M_with_current cs input :
-  run_M_with cur_lead cur_cat_fix cur_str_white cur_base cur_rescan cur_va_fix cur_va_whole cs input = run_M_case cs input.
+  run_M_with cur_lead cur_cat_fix cur_str_white cur_resub_fix cur_base cur_rescan cur_va_fix cur_va_whole cs input = run_M_case cs input.
 Proof. reflexivity. Qed.
 
 Definition was_wrong (mk : list cmacro -> list tok -> data) (cs : list cmacro) (input : list tok) : Prop :=
@@ -102,7 +100,7 @@ Qed.
 (* #define S(x) #x     S( a) *)
 Definition w_str := [def_fun ViaDefine [tIw "S"; tP "("; tI "x"; tP ")"; tOw "#"; tI "x"] "S" ["x"] false [tO "#"; tI "x"]].
 Lemma original_leading_blank :
-  was_wrong (run_M_with true cur_cat_fix cur_str_white cur_base cur_rescan cur_va_fix cur_va_whole)
+  was_wrong (run_M_with true cur_cat_fix cur_str_white cur_resub_fix cur_base cur_rescan cur_va_fix cur_va_whole)
             w_str [tI "S"; tP "("; tIw "a"; tP ")"].
 Proof. closed_was. Qed.
 
@@ -111,7 +109,7 @@ Definition w_cat :=
   [def_fun ViaDefine [tIw "F"; tP "("; tI "x"; tP ","; tI "y"; tP ")"; tIw "x"; tO "##"; tI "y"] "F" ["x"; "y"] false
            [tI "x"; tO "##"; tI "y"]].
 Lemma original_empty_paste_operand :
-  was_wrong (run_M_with cur_lead false cur_str_white cur_base cur_rescan cur_va_fix cur_va_whole)
+  was_wrong (run_M_with cur_lead false cur_str_white cur_resub_fix cur_base cur_rescan cur_va_fix cur_va_whole)
             w_cat [tI "F"; tP "("; tI "a"; tP ","; tP ")"].
 Proof. closed_was. Qed.
 
@@ -120,13 +118,13 @@ Definition w_cat3 :=
   [def_fun ViaDefine [tIw "F"; tP "("; tI "x"; tP ","; tI "y"; tP ","; tI "z"; tP ")"; tIw "x"; tO "##"; tI "y"; tO "##"; tI "z"]
            "F" ["x"; "y"; "z"] false [tI "x"; tO "##"; tI "y"; tO "##"; tI "z"]].
 Lemma original_two_empty_paste_operands :
-  was_wrong (run_M_with cur_lead false cur_str_white cur_base cur_rescan cur_va_fix cur_va_whole)
+  was_wrong (run_M_with cur_lead false cur_str_white cur_resub_fix cur_base cur_rescan cur_va_fix cur_va_whole)
             w_cat3 [tI "F"; tP "("; tP ","; tP ","; tN "1"; tP ")"].
 Proof. closed_was. Qed.
 
 (* #define None 1     None *)
 Lemma original_macro_named_None :
-  was_wrong (run_M_with cur_lead cur_cat_fix cur_str_white (Some "None") cur_rescan cur_va_fix cur_va_whole)
+  was_wrong (run_M_with cur_lead cur_cat_fix cur_str_white cur_resub_fix (Some "None") cur_rescan cur_va_fix cur_va_whole)
             [def_obj ViaDefine [tIw "None"; tNw "1"] "None" [tN "1"]] [tI "None"].
 Proof. closed_was. Qed.
 
@@ -135,7 +133,7 @@ Definition w_fg :=
   [def_fun ViaDefine [tIw "f"; tP "("; tI "a"; tP ")"; tIw "a"; tO "*"; tI "g"] "f" ["a"] false [tI "a"; tO "*"; tI "g"];
    def_fun ViaDefine [tIw "g"; tP "("; tI "a"; tP ")"; tIw "f"; tP "("; tI "a"; tP ")"] "g" ["a"] false [tI "f"; tP "("; tI "a"; tP ")"]].
 Lemma original_rescan_following_source :
-  was_wrong (run_M_with cur_lead cur_cat_fix cur_str_white cur_base true cur_va_fix cur_va_whole)
+  was_wrong (run_M_with cur_lead cur_cat_fix cur_str_white cur_resub_fix cur_base true cur_va_fix cur_va_whole)
             w_fg [tI "f"; tP "("; tN "2"; tP ")"; tP "("; tN "9"; tP ")"].
 Proof. closed_was. Qed.
 
@@ -145,21 +143,27 @@ Definition w_lp :=
    def_fun ViaDefine [tIw "F"; tP "("; tI "x"; tP ")"; tIw "x"] "F" ["x"] false [tI "x"];
    def_obj ViaDefine [tIw "X"; tIw "F"; tIw "LP"; tNw "1"; tPw ")"] "X" [tI "F"; tIw "LP"; tNw "1"; tPw ")"]].
 Lemma original_rescan_paren_indirection :
-  was_wrong (run_M_with cur_lead cur_cat_fix cur_str_white cur_base true cur_va_fix cur_va_whole) w_lp [tI "X"].
+  was_wrong (run_M_with cur_lead cur_cat_fix cur_str_white cur_resub_fix cur_base true cur_va_fix cur_va_whole) w_lp [tI "X"].
 Proof. closed_was. Qed.
 
 (* #define LOG(...) 0     LOG(1) *)
 Definition w_log :=
   [def_fun ViaDefine [tIw "LOG"; tP "("; tP "."; tP "."; tP "."; tP ")"; tNw "0"] "LOG" ["__VA_ARGS__"] true [tN "0"]].
 Lemma original_variadic_unused :
-  was_wrong (run_M_with cur_lead cur_cat_fix cur_str_white cur_base cur_rescan false cur_va_whole)
+  was_wrong (run_M_with cur_lead cur_cat_fix cur_str_white cur_resub_fix cur_base cur_rescan false cur_va_whole)
             w_log [tI "LOG"; tP "("; tN "1"; tP ")"].
 Proof. closed_was. Qed.
 
 (* #define H(...) #__VA_ARGS__     H(7 ,8) *)
 Lemma original_variadic_comma_white :
-  was_wrong (run_M_with cur_lead cur_cat_fix cur_str_white cur_base cur_rescan cur_va_fix false)
+  was_wrong (run_M_with cur_lead cur_cat_fix cur_str_white cur_resub_fix cur_base cur_rescan cur_va_fix false)
             w_vacomma [tI "H"; tP "("; tN "7"; tPw ","; tN "8"; tP ")"].
+Proof. closed_was. Qed.
+
+(* #define G(x,y) #y x     G(1,x) *)
+Lemma original_operand_resubstituted :
+  was_wrong (run_M_with cur_lead cur_cat_fix cur_str_white false cur_base cur_rescan cur_va_fix cur_va_whole)
+            w_resub [tI "G"; tP "("; tN "1"; tP ","; tI "x"; tP ")"].
 Proof. closed_was. Qed.
 
 (* #define S(x) #x   #define T(x) S(a #x)     T(b) *)
@@ -168,6 +172,6 @@ Definition w_tb :=
    def_fun ViaDefine [tIw "T"; tP "("; tI "x"; tP ")"; tIw "S"; tP "("; tI "a"; tOw "#"; tI "x"; tP ")"] "T" ["x"] false
            [tI "S"; tP "("; tI "a"; tOw "#"; tI "x"; tP ")"]].
 Lemma original_string_white :
-  was_wrong (run_M_with cur_lead cur_cat_fix false cur_base cur_rescan cur_va_fix cur_va_whole)
+  was_wrong (run_M_with cur_lead cur_cat_fix false cur_resub_fix cur_base cur_rescan cur_va_fix cur_va_whole)
             w_tb [tI "T"; tP "("; tI "b"; tP ")"].
 Proof. closed_was. Qed.
